@@ -49,6 +49,15 @@ def call_real(inp, animals):
         H, W, s, sigma, pts = H * K, W * K, s * K, sigma * K, pts * K
     # edge indices as an integer tensor, or as the float32 tensor the repository's own datasets pass (torch.Tensor(edge_inds)),
     # or int32 - chosen by the scene, so that replays agree
+    def kw(d_sigma, d_stride):
+        """a value equal to the documented default of the entry point is LEFT OUT (the default is part of the interface)"""
+        out = {}
+        if sigma != d_sigma:
+            out["sigma"] = sigma
+        if s != d_stride:
+            out["output_stride"] = s
+        return out
+
     E = len(inp["edges"])
     dt = (torch.int64, torch.float32, torch.int32)[(H + W + E + len(animals)) % 3]
     edge_inds = torch.tensor(inp["edges"], dtype=dt).reshape(-1, 2)
@@ -59,17 +68,17 @@ def call_real(inp, animals):
         ex = {"image": torch.zeros((1, 1, H, W)), "instances": pts}
         other = {"image": torch.zeros((1, 1, H + s * (1 + (W // s) % 2), max(s, W - s))), "instances": torch.flip(pts, dims=[-1]) * 0.5 + 1.0}
         stream = {0: [ex], 1: [ex, other], 2: [other, ex]}[spos]
-        dp = PartAffinityFieldsGenerator(stream, sigma=sigma, output_stride=s, edge_inds=edge_inds, flatten_channels=True)
+        dp = PartAffinityFieldsGenerator(stream, edge_inds=edge_inds, flatten_channels=True, **kw(1.0, 1))
         outs = list(dp)
         if len(outs) != len(stream):
             raise AssertionError("stream of %d examples gave %d outputs" % (len(stream), len(outs)))
         out = outs[1 if spos == 2 else 0]["part_affinity_fields"]
     elif api == "fn4":
-        out = generate_pafs(pts, (H, W), sigma=sigma, output_stride=s, edge_inds=edge_inds, flatten_channels=False)
+        out = generate_pafs(pts, (H, W), edge_inds=edge_inds, **kw(1.5, 2))          # flatten_channels left at its default (False)
         if out.ndim == 4 and out.shape[0] == E and out.shape[1] == 2:
             out = out.reshape(2 * E, out.shape[2], out.shape[3])     # the documented flattening of (E, 2, h, w)
     else:
-        out = generate_pafs(pts, (H, W), sigma=sigma, output_stride=s, edge_inds=edge_inds, flatten_channels=True)
+        out = generate_pafs(pts, (H, W), edge_inds=edge_inds, flatten_channels=True, **kw(1.5, 2))
     return out
 
 
